@@ -203,6 +203,31 @@ def run(ctx):
             if ref is None: ref = fun
             elif abs(fun - ref) > (2e-3 if opt == 'minuit' else 1e-5) * (1 + abs(ref)):
                 ctx.fail('C05/configuration-dependence', 'attained objective depends on stitch/grad/optimiser/backend beyond tolerance', inp, fun, ref)
+    # ---------------- the reported objective belongs to the returned point also when MIGRAD runs at strategy 0 (per-call `strategy=0`; what the
+    # autodiff backends get by default) and with the result object requested: fun = result.fun = twice_nll(returned parameters)
+    for h in range(ctx.n(16, 200)):
+        spec, _ = gen_spec.gen_spec(rng, max_channels=2, max_samples=3, max_bins=3)
+        pyhf.set_backend('numpy', pyhf.optimize.minuit_optimizer())
+        try:
+            m = pyhf.Model(spec, poi_name='mu')
+        except Exception:  # noqa
+            continue
+        init = m.config.suggested_init()
+        exp = np.asarray(m.expected_actualdata(np.asarray(init)))
+        data = [float(x) for x in np.random.RandomState(rng.randrange(2**31)).poisson(exp)] + m.config.auxdata
+        for mode in ('free', 'fixed_poi'):
+            kw = rng.choice([{'strategy': 0}, {'strategy': 0, 'tolerance': 0.01}, {'strategy': 2}])
+            try:
+                if mode == 'free': pars, fun, res = pyhf.infer.mle.fit(data, m, return_fitted_val=True, return_result_obj=True, **kw)
+                else: pars, fun, res = pyhf.infer.mle.fixed_poi_fit(1.0, data, m, return_fitted_val=True, return_result_obj=True, **kw)
+            except Exception:  # noqa — failure to converge is not the subject here
+                ctx.tally('strategy_fit', 'failed'); continue
+            ctx.count(); ctx.tally('strategy_fit', f"strategy {kw['strategy']}")
+            ref = float(pyhf.infer.mle.twice_nll(np.asarray(pars), data, m)[0])
+            inp = {'spec': spec, 'data': data, 'mode': mode, 'options': kw}
+            if abs(float(fun) - ref) > 1e-8 * (1 + abs(ref)) or abs(float(res.fun) - ref) > 1e-8 * (1 + abs(ref)):
+                ctx.fail('C05/honest-objective', 'reported objective (fun / result.fun) is not twice_nll at the returned parameters', inp, [float(fun), float(res.fun)], ref)
+    pyhf.set_backend('numpy', 'scipy')
     # ---------------- directed: whose flags decide what a fit holds constant?  on/off models (closed forms proved in C08_OnOff.lean) whose
     # measurement declares the background normalisation constant; the caller's explicit flags are used as given — an all-False mask frees
     # it (free optimum: both counts reproduced; conditional optimum: k-hat(mu)), a mask holding it keeps it at its starting value
